@@ -2,6 +2,7 @@ package types
 
 import (
 	"errors"
+	"fmt"
 
 	sdkmath "cosmossdk.io/math"
 	sdk "github.com/cosmos/cosmos-sdk/types"
@@ -95,6 +96,17 @@ func (p *Pool) CalcJoinPoolNoSwapShares(tokensIn sdk.Coins) (numShares sdkmath.I
 	// ensure that there aren't too many or too few assets in `tokensIn`
 	if tokensIn.Len() != len(p.PoolAssets) {
 		return sdkmath.ZeroInt(), sdk.NewCoins(), errors.New("no-swap joins require LP'ing with all assets in pool")
+	}
+
+	// every pool asset must be named exactly once: the list comes from the message as it was sent (its entries
+	// are validated one by one), and Coins.Sub below merges a repeated denom, so that a one-sided deposit
+	// naming one asset twice would pass the length check above and the amount check below
+	for i := range tokensIn {
+		for j := i + 1; j < len(tokensIn); j++ {
+			if tokensIn[i].Denom == tokensIn[j].Denom {
+				return sdkmath.ZeroInt(), sdk.NewCoins(), fmt.Errorf("duplicate denom in tokens in: %s", tokensIn[i].Denom)
+			}
+		}
 	}
 
 	// execute a no-swap join with as many tokens as possible given a perfect ratio:
